@@ -145,6 +145,65 @@ func genBatch(r *hx.Rng, maxRows int, late bool, hiWater int, sparse bool) []eng
 	return rows
 }
 
+// unmergedDuplicates: the answer is the expected one except that some (series,time) comes back as
+// two or more rows which, laid over each other, give the expected row (every expected value occurs
+// in one of them, none of them holds anything else): rows of one timestamp that the read did not
+// merge because they sit in two *ordered* files (the read concatenates ordered files).
+func unmergedDuplicates(ans, want string) bool {
+	if !strings.HasPrefix(ans, "rows ") || !strings.HasPrefix(want, "rows ") || strings.Contains(ans, "!split") {
+		return false
+	}
+	type rk struct{ s, t string }
+	parse := func(x string) (map[rk][][]string, bool) {
+		m := map[rk][][]string{}
+		body := strings.TrimPrefix(x, "rows ")
+		if body == "" {
+			return m, true
+		}
+		for _, c := range strings.Split(body, "|") {
+			f := strings.SplitN(c, ":", 3)
+			if len(f) != 3 {
+				return nil, false
+			}
+			k := rk{f[0], f[1]}
+			m[k] = append(m[k], strings.Split(f[2], ","))
+		}
+		return m, true
+	}
+	a, ok1 := parse(ans)
+	w, ok2 := parse(want)
+	if !ok1 || !ok2 || len(a) != len(w) {
+		return false
+	}
+	dup := false
+	for k, wr := range w {
+		ar, ok := a[k]
+		if !ok || len(wr) != 1 {
+			return false
+		}
+		if len(ar) > 1 {
+			dup = true
+		}
+		for i, v := range wr[0] {
+			found := false
+			for _, r := range ar {
+				if i >= len(r) {
+					return false
+				}
+				if r[i] == v {
+					found = true
+				} else if r[i] != "_" && len(ar) == 1 {
+					return false
+				}
+			}
+			if !found {
+				return false
+			}
+		}
+	}
+	return dup
+}
+
 type walRec struct {
 	part int
 	rows []engx.Row
@@ -196,6 +255,7 @@ type history struct {
 	flushed  map[key]bool
 	inMem    map[key]bool
 	opsKinds map[string]int
+	reopened bool // the history had a clean restart
 }
 
 func (h *history) readCheck(r *hx.Rng, tag string) error {
@@ -230,7 +290,10 @@ func (h *history) readCheck(r *hx.Rng, tag string) error {
 	if r.Chance(40) {
 		llo, lhi = 0, nTimes-1
 	}
-	qs = append(qs, q{lfs, llo, lhi, r.Bool(), 1 + r.Intn(3), r.Intn(2)})
+	lq := q{lfs, llo, lhi, r.Bool(), 1 + r.Intn(3), r.Intn(2)}
+	if h.c.Arg("limit", "on") != "off" { // -D limit=off: diagnosis only
+		qs = append(qs, lq)
+	}
 	h.sh.FlushIndex()
 	for _, x := range qs {
 		var vf []engine.VerifField
@@ -274,6 +337,8 @@ func (h *history) readCheck(r *hx.Rng, tag string) error {
 			}
 			if ans == pred.readK(x.fields, x.lo, x.hi, x.asc, x.limit+x.offset) {
 				class = "wal_replay_order_mod_n"
+			} else if h.reopened && x.limit+x.offset == 0 && unmergedDuplicates(ans, want) {
+				class = "unmerged_duplicate_time_after_reopen"
 			}
 			h.c.Violation(line, class, fmt.Sprintf("after %s: shard answered %q, last-write-wins replay says %q", tag, ans, want))
 		}
@@ -413,6 +478,7 @@ func runHistory(c *hx.Ctx, r *hx.Rng, idx int, maxOps int) error {
 				h.base.apply(w.rows)
 			}
 			h.wal, h.ctr = nil, 0
+			h.reopened = true
 			c.Emit("reopen", ansOf(perr, e))
 			if perr != "" || e != nil {
 				return fmt.Errorf("reopen failed: %s %v", perr, e)
@@ -455,12 +521,24 @@ func Run(c *hx.Ctx) error {
 	c.Stats.Rule = "random histories over 3 series x 8 timestamps x 4 typed fields (partial-field rows, late data, repeated timestamps in a batch; a third with two very sparse columns) interleaved with flush / level compaction / full compaction / out-of-order merge / clean reopen, 1000, 2 or 3 rows per segment; after every op four reads (asc, desc, random range+field subset, random range/fields with LIMIT/OFFSET pushed into the series cursors) are compared with the Lean layout model and with a Go last-write-wins map; plus record-level cases (Sort, MergeRecord asc/desc, the same merges against the model built from the translated decision functions) and memtable cases (rows of one series appended in a chosen order, never flushed, range reads in both directions); a history is non-trivial when some (series,time) was written again while an earlier version sat in memory or in a file; distinct by op-kind string"
 	n := c.Budget(60, 1500)
 	r := hx.NewRng(c.Seed)
-	runRecAlg(c, r.Fork(), n*40)
-	if err := runMemRead(c, r.Fork(), n*6); err != nil {
-		return err
+	// -D from=<i> -D to=<j>: only the histories i..j of this seed and budget (replay of a failing history;
+	// with C02_TRACE=1 the operations and their parameters are printed as they run)
+	from, to := -1, -1
+	fmt.Sscan(c.Arg("from", "-1"), &from)
+	fmt.Sscan(c.Arg("to", "-1"), &to)
+	rAlg, rMem := r.Fork(), r.Fork()
+	if from < 0 {
+		runRecAlg(c, rAlg, n*40)
+		if err := runMemRead(c, rMem, n*6); err != nil {
+			return err
+		}
 	}
 	for i := 0; i < n; i++ {
-		if err := runHistory(c, r.Fork(), i, 22); err != nil {
+		rh := r.Fork()
+		if from >= 0 && (i < from || i > to) {
+			continue
+		}
+		if err := runHistory(c, rh, i, 22); err != nil {
 			return err
 		}
 	}
